@@ -49,6 +49,13 @@ def cells(tier):
                 out.append(cell(f"s{size} M3/{nc} cancelM0(slow ccb) {fn}", sc, MON))
             sc = scen(pool(size), [[M("M", 3, nc)], [FLUSH_RE]], outcomes=["ret", "exc"], ecb="slow", ccb="plain", slow_ids=[0])
             out.append(cell(f"s{size} M3/{nc} slow ecb0 flush-r", sc, MON))
+    # an attempt to close the pool is cancelled while the first call's tasks sit in their (async) end callbacks; the pool is
+    # unlocked and used for a second map (the close is attempted once every task has started: see DESIGN.md,
+    # observations outside the properties)
+    sc = scen(pool(2), [[M("M", 2, 2)], [["gac", {"when": "quiet_idle"}]], [["cancel_op", 1]],
+                        [["unlock", {"after": [1, 1], "after_done": True}], M("N", 2, 2)]],
+              outcomes=["ret"], ecb="slow", ccb="plain", slow_ids=[0, 1])
+    out.append(cell("s2 M2/2|gac@idle|cancel-the-close|unlock,N2/2 slowecb", sc, MON))
     # two pools in one loop, each running a map; a task of one is cancelled (also before its first step)
     for size in [2, "inf"]:
         if not q:
